@@ -88,6 +88,18 @@ fn main() {
     row!("Foreign", "Work", 0, 1, 1, AsyncDetached<ForeignLocalWork, ConcurrentHeapRB<usize>>);
     row!("Foreign", "Cons", 1, 0, 0, AsyncDetached<ForeignRcCons, ConcurrentHeapRB<u8>>);
 
+    // carriers: an iterator (or a non-sendable item) travels inside an UNSPLIT buffer - the buffer types themselves must not be more
+    // sendable than what they hold (conc = 0: the carried iterator belongs to a local buffer; item_send = 0: the carried item is not Send)
+    row!("Carrier", "Prod", 0, 1, 1, ConcurrentHeapRB<ProdIter<'static, LocalHeapRB<usize>>>);
+    row!("Carrier", "Cons", 0, 1, 1, LocalHeapRB<ConsIter<'static, LocalStackRB<usize, 4>, false>>);
+    row!("Carrier", "Work", 0, 1, 1, ConcurrentStackRB<Detached<WorkIter<'static, LocalHeapRB<usize>>>, 2>);
+    row!("Carrier", "Prod", 0, 1, 1, LocalStackRB<AsyncProdIter<'static, LocalHeapRB<usize>>, 2>);
+    row!("Carrier", "Prod", 1, 0, 0, ConcurrentHeapRB<Rc<u8>>);
+    row!("Carrier", "Prod", 1, 0, 0, LocalHeapRB<Rc<u8>>);
+    row!("Carrier", "Cons", 1, 0, 0, ConcurrentStackRB<Rc<u8>, 4>);
+    row!("Carrier", "Cons", 1, 0, 0, LocalStackRB<Rc<u8>, 4>);
+    row!("Carrier", "Cons", 1, 0, 0, ConcurrentHeapRB<ConsIter<'static, ConcurrentHeapRB<Rc<u8>>, false>>);
+
     bufs!(1, 1, usize);
     bufs!(0, 0, Rc<u8>);
     bufs!(1, 0, Cell<u8>);
